@@ -126,6 +126,11 @@ func (r *BinReader) ReadArray(t any, maxSize ...int) {
 	}
 
 	l := int(lu)
+	if rl := r.Len(); rl >= 0 && l > rl {
+		// Every element takes at least one byte, don't allocate for more.
+		r.Err = fmt.Errorf("array is too big (%d) for the data left (%d)", l, rl)
+		return
+	}
 	arr := reflect.MakeSlice(sliceType, l, l)
 
 	for i := range l {
@@ -143,6 +148,9 @@ func (r *BinReader) ReadArray(t any, maxSize ...int) {
 		}
 
 		el.DecodeBinary(r)
+		if r.Err != nil {
+			return
+		}
 	}
 
 	value.Elem().Set(arr)
